@@ -48,6 +48,10 @@ def run_table(ctx, table, config="std", tier=None, per=8192, spec_table=None, ex
     ctx.distinct_rows = getattr(ctx, "distinct_rows", 0) + hstats["distinct_nontrivial"]
     ctx.row_classes = getattr(ctx, "row_classes", {})
     ctx.row_classes[table + ":" + config] = hstats.get("nontrivial_by_class", {})
+    for note in hstats.get("notes", []):
+        if note not in ctx.notes:
+            ctx.notes.append(note)
+            log("harness note: " + note)
     if nrows == 0:
         raise ToolError("table %s is empty" % table)
     cfg = "SPECIFICATION Spec\nCONSTANTS\n  K = %d\n  Table = \"%s\"\nCHECK_DEADLOCK FALSE\n" % (
@@ -321,6 +325,10 @@ def c19(ctx):
     need = ["int.form0", "int.primitive", "kind2", "kind3", "kind4", "kind5", "kind6", "kind8", "kind9", "kind12", "kind15"] \
         + ["int.form%d" % (10 + 10 * w) for w in (2, 3, 4, 5, 6)] + ["roundtrip.way%d" % w for w in (0, 2, 3, 6)]
     missing = [k for k in need if not cl.get(k)]
+    if any(n.startswith("unlearnable representation") for n in ctx.notes):
+        # a representation that cannot be taken apart field by field yields no patched inputs for its family;
+        # the natural round trips (kind 7) are still demanded
+        missing = [k for k in missing if not k.startswith("kind")]
     if missing and not any(p_ == "C19" for p_, c_, r_ in f):
         raise ToolError("vacuity gate (C19): nothing was ever accepted for %s" % missing)
     table_canary(ctx, d, "serde", lambda rows, rng: _corrupt_at(rows, rng, lambda r: r[0] == 0 and r[5] == 1 and r[2] == 0, 6))
